@@ -22,8 +22,14 @@ pub fn run(ctx: &mut RunCtx) -> i32 {
         ctx.shards,
         cases,
         4000,
-        |_shard| {
-            let cfg = cfg.clone();
+        |shard| {
+            let mut cfg = cfg.clone();
+            // one shard in eight places variables in split-port cartridge RAM (read and written at different
+            // addresses): what the source says does not depend on where a variable lives
+            if shard % 8 == 7 {
+                cfg.split_permille = 300;
+                cfg.split_qual = if shard % 16 == 7 { crate::ast::MemQual::Superchip } else { crate::ast::MemQual::Bank(1) };
+            }
             pbt::strategy(move |g| sem::gen_case(g, &cfg, n_inits, &[0, 1], true))
         },
         |case: &SemCase, st: &mut Stats| sem::check_against_refc(case, st, "C01", &excl),
